@@ -35,20 +35,37 @@ C09_FRAMES = {
     "P2": [(2, "a"), (2, "b")],                                          # partition p=2 only
     "P3": [(3, "a"), (3, "a"), (3, "c")],                                # a partition nobody has yet
     "P1": [(1, "b")],
+    # second value alphabet: BOTH partition candidates draw from the same value set {u, v} (w = a value no
+    # partition has yet), so that exchanging the two partition keys names another EXISTING partition
+    "U8": [("u", "u"), ("u", "v"), ("v", "u"), ("v", "v"), ("u", "u"), ("u", "v"), ("v", "u"), ("v", "v")],
+    "U4": [("u", "v"), ("v", "u"), ("u", "v"), ("v", "u")],                # the two asymmetric partitions
+    "Uuv": [("u", "v")],                                                  # one asymmetric partition
+    "Uvu": [("v", "u"), ("v", "u")],                                      # its mirror image
+    "Uuu": [("u", "u"), ("u", "v")],                                      # p=u only, both q
+    "Uwu": [("w", "u"), ("u", "w")],                                      # two partitions nobody has yet, mirror images
+}
+# column orders of a frame handed to the library (the dataset's partition_on order is a separate axis)
+C09_ORDERS = {
+    "natural": ["x", "f", "s", "p", "q"],
+    "q_x_p": ["q", "x", "f", "p", "s"],         # second partition candidate first, data columns in between
+    "p_q_first": ["p", "q", "s", "x", "f"],
+    "q_p_last": ["f", "x", "s", "q", "p"],
 }
 C09_RGOS = {"none": None, "two": 2, "list": [0, 2, 4]}
 
 
-def c09_frame(name, step):
+def c09_frame(name, step, order=None):
     pq = C09_FRAMES[name]
     n = len(pq)
     ids = np.arange(step * 100, step * 100 + n, dtype="int64")
     f = ids / 8.0
     f[1::3] = np.nan
     s = [None if i % 4 == 3 else "v%d" % i for i in ids]
-    return pd.DataFrame({"x": ids, "f": f, "s": pd.Series(s, dtype=object),
-                         "p": np.array([a for a, _ in pq], dtype="int64"),
-                         "q": pd.Series([b for _, b in pq], dtype=object)})
+    pvals = [a for a, _ in pq]
+    pcol = pd.Series(pvals, dtype=object) if any(isinstance(a, str) for a in pvals) else np.array(pvals, dtype="int64")
+    df = pd.DataFrame({"x": ids, "f": f, "s": pd.Series(s, dtype=object), "p": pcol,
+                       "q": pd.Series([b for _, b in pq], dtype=object)})
+    return df[C09_ORDERS[order]] if order else df
 
 
 def c09_rgo(kind, n):
@@ -219,12 +236,13 @@ def c09_subset(kind, paths):
     raise ValueError(kind)
 
 
-def c09_apply(fp, root, model, parts, op, step, info):
-    """apply one operation to the real dataset and to the model.  info collects the collision predicate."""
+def c09_apply(fp, root, model, parts, op, step, info, order=None, order0=None):
+    """apply one operation to the real dataset and to the model.  info collects the collision predicate.
+    order0 / order: column order (name in C09_ORDERS) of the original frame / of every later frame."""
     kind = op[0]
     if kind == "write":
         _k, fname, rk = op
-        df = c09_frame(fname, step)
+        df = c09_frame(fname, step, order0)
         fp.write(root, df, file_scheme="hive", partition_on=parts, row_group_offsets=c09_rgo(rk, len(df)))
         model.clear()
         c09_model_add(model, df, parts)
@@ -236,7 +254,7 @@ def c09_apply(fp, root, model, parts, op, step, info):
     empty_partitioned = bool(parts) and not paths
     if kind == "append":
         _k, fname, rk = op
-        df = c09_frame(fname, step)
+        df = c09_frame(fname, step, order)
         try:
             fp.write(root, df, file_scheme="hive", partition_on=parts, append=True,
                      row_group_offsets=c09_rgo(rk, len(df)))
@@ -248,7 +266,7 @@ def c09_apply(fp, root, model, parts, op, step, info):
         c09_model_add(model, df, parts)
     elif kind == "overwrite":
         _k, fname, rk = op
-        df = c09_frame(fname, step)
+        df = c09_frame(fname, step, order)
         rgo = c09_rgo(rk, len(df))
         new = c09_new_paths(df, parts, rgo, offset)
         # order the library documents: new row groups go to the first row group of their partition
@@ -286,7 +304,7 @@ def c09_apply(fp, root, model, parts, op, step, info):
             model[k] = [r for r in model[k] if r[4] not in gone]
     elif kind == "wrg":
         _k, fname, rk, sk, sp = op
-        df = c09_frame(fname, step)
+        df = c09_frame(fname, step, order)
         rgo = c09_rgo(rk, len(df))
         new = c09_new_paths(df, parts, rgo, offset)
         if sk == "newfirst":
@@ -323,7 +341,7 @@ def c09_run(fp, spec, root):
     ds = os.path.join(root, "ds")
     for step, op in enumerate(spec["ops"]):
         try:
-            c09_apply(fp, ds, model, parts, op, step, info)
+            c09_apply(fp, ds, model, parts, op, step, info, spec.get("order"), spec.get("order0"))
         except Exception as e:
             return f"step {step} {op}: operation raised {type(e).__name__}: {str(e)[:200]}", info
         info["steps"] += 1
@@ -354,6 +372,60 @@ def op_alphabet(parts):
     return ops
 
 
+# second family: overlapping partition values, partition_on order vs. frame column order
+UV_PARTS = [["p", "q"], ["q", "p"], ["p"], ["q"]]
+UV_INITS = [("write", "U8", "none"), ("write", "U8", "list")]
+UV_ORDERS = ["natural", "q_x_p", "p_q_first", "q_p_last"]
+
+
+def uv_alphabet():
+    return [
+        ("overwrite", "Uuv", "none"), ("overwrite", "Uvu", "two"), ("overwrite", "U4", "two"),
+        ("overwrite", "Uuu", "none"), ("overwrite", "Uwu", "none"),
+        ("append", "Uuv", "none"), ("append", "U4", "two"),
+        ("remove", "first", 0), ("remove", "firstdir", 1),
+        ("wrg", "Uvu", "none", "newfirst", 0), ("wrg", "Uuv", "none", "bydir", 1),
+    ]
+
+
+def enumerate_uv(tier):
+    specs = []
+    alpha = uv_alphabet()
+    quick = tier == "quick"
+    for parts in UV_PARTS:
+        for init in UV_INITS:
+            for order0 in ("natural", "q_p_last"):
+                for order in UV_ORDERS:
+                    if quick and order0 != "natural" and order not in ("natural", "q_x_p"):
+                        continue
+                    base = {"parts": parts, "order": order, "order0": order0}
+                    for a in alpha:
+                        specs.append(dict(base, ops=[init, a]))
+                    if quick and (order0 != "natural" or init != UV_INITS[0]):
+                        continue
+                    # quick: ALL pairs for the first original on the two 2-column partitionings with the
+                    # interleaved frame order; elsewhere one third of the pairs that contain an overwrite
+                    full = not quick or (order == "q_x_p" and len(parts) == 2)
+                    for ia, a in enumerate(alpha):
+                        for ib, b in enumerate(alpha):
+                            if not full and ((a[0] != "overwrite" and b[0] != "overwrite") or
+                                             (ia + ib + UV_ORDERS.index(order)) % 3):
+                                continue
+                            specs.append(dict(base, ops=[init, a, b]))
+    # the first family's frames with the partition_on order reversed and permuted frame columns
+    for order in UV_ORDERS:
+        for init in INITS:
+            alpha = op_alphabet(["q", "p"])
+            base = {"parts": ["q", "p"], "order": order, "order0": "natural"}
+            for a in alpha:
+                specs.append(dict(base, ops=[init, a]))
+                if tier != "quick" or a[0] == "overwrite":
+                    for b in alpha:
+                        if tier != "quick" or b[0] == "overwrite":
+                            specs.append(dict(base, ops=[init, a, b]))
+    return specs
+
+
 def enumerate_specs(tier, seed):
     specs = []
     for parts in PARTS:
@@ -368,6 +440,7 @@ def enumerate_specs(tier, seed):
                             (alpha.index(a) + alpha.index(b) + INITS.index(init)) % 4:
                         continue        # quick: ALL pairs for the first original on partitioned datasets, a quarter otherwise
                     specs.append({"parts": parts, "ops": [init, a, b]})
+    specs += enumerate_uv(tier)
     if tier == "thorough":
         import random
         rng = random.Random(seed)
@@ -376,6 +449,12 @@ def enumerate_specs(tier, seed):
             for ln in (3, 4):
                 for _ in range(500):
                     specs.append({"parts": parts, "ops": [rng.choice(INITS)] + [rng.choice(alpha) for _ in range(ln)]})
+        alpha = uv_alphabet()
+        for parts in UV_PARTS:
+            for ln in (3, 4):
+                for _ in range(200):
+                    specs.append({"parts": parts, "order": rng.choice(UV_ORDERS), "order0": rng.choice(UV_ORDERS),
+                                  "ops": [rng.choice(UV_INITS)] + [rng.choice(alpha) for _ in range(ln)]})
     return specs
 
 
@@ -385,7 +464,8 @@ def opname(op):
 
 def features_of(spec, info):
     return {"partition_on": ",".join(spec["parts"]), "original": opname(spec["ops"][0]),
-            "ops": "|".join(opname(o) for o in spec["ops"][1:]), "pnames_collision": bool(info["collision"])}
+            "ops": "|".join(opname(o) for o in spec["ops"][1:]), "pnames_collision": bool(info["collision"]),
+            "frame_columns": spec.get("order") or "natural", "original_columns": spec.get("order0") or "natural"}
 
 
 def snippet_of(spec):
